@@ -401,7 +401,7 @@ def check_hash_invariance(prop, tier, repo, verif):
     t0 = time.time()
     res = {'unit': 'bounded:hash_invariance', 'engine': 'bounded run of the real assembler and processor (tools/hashprobe)', 'status': 'ok',
            'failures': [], 'undecided': [], 'bounded': True,
-           'bound': '11 programs (spans, if/else, if without else, while, repeat, exec, call, locals + memory, syscall with a kernel, nested control flow, a 2-batch span): comments + whitespace, procedure renaming, debug-mode assembly, 6 decorators (debug.stack, debug.mem, emit, trace, adv.push_mapval, adv.insert_hdword) and breakpoint inserted at every body position in both assembly modes => same MAST root; every single operation / immediate substituted => another root; execute(): trace.program_hash() == program.hash()'}
+           'bound': '12 programs (spans, assertions with error codes, if/else, if without else, while, repeat, exec, call, locals + memory, syscall with a kernel, nested control flow, a 2-batch span): comments + whitespace, procedure renaming, debug-mode assembly, 6 decorators (debug.stack, debug.mem, emit, trace, adv.push_mapval, adv.insert_hdword) and breakpoint inserted at every body position in both assembly modes => same MAST root; every single operation / immediate substituted => another root; execute(): trace.program_hash() == program.hash()'}
     binp, err = build_tool(repo, verif, 'hashprobe')
     if binp is None:
         res['status'] = 'undecided'
